@@ -194,7 +194,7 @@ def run(ck: core.Check):
         ck.leanchecker(["SpoxModel.Props.C01"])
 
     rng = ck.rng
-    n_random = ck.pick(1100, 8000)
+    n_random = ck.pick(900, 8000)
     n_styles = ck.pick(3, 4)
     n_bind = 3
     skel_uses = ck.pick(3, 6)
@@ -207,6 +207,8 @@ def run(ck: core.Check):
         programs.append((prog, "skeleton2:" + tag))
     for prog, tag in L.skeleton3_programs(ck.pick(2, 3), ck.pick(1, 2)):
         programs.append((prog, "skeleton3:" + tag))
+    for prog, tag in L.skeleton4_programs(pairs=True):
+        programs.append((prog, "skeleton4:" + tag))
     n_skel = len(programs)
     for i in range(n_random):
         size = rng.choice([8, 12, 16, 20, 26, 32, 40])
@@ -237,7 +239,10 @@ def run(ck: core.Check):
         hist_depth[d] += 1
         for n in prog["nodes"]:
             hist_ops[n["op"]] += 1
-        styles = skel_styles if origin.startswith("skeleton") else rng.sample(L.STYLES, n_styles)
+        if origin.startswith("skeleton4"):
+            styles = ["lazy", "eager"] if not ck.thorough else skel_styles
+        else:
+            styles = skel_styles if origin.startswith("skeleton") else rng.sample(L.STYLES, n_styles)
         skey = struct_key(prog)
         for style in styles:
             rseed = rng.getrandbits(32)
